@@ -80,6 +80,11 @@ def sc_gmm(B, trainer, dask, size=(2, 1, 3)):
     X = fr.own("X", B.arr("x", (N, D)))
     if trainer == "ml":
         m, P = make_gmm(B, C, D, "scalar", simplex=True, update_means=True, update_variances=True, update_weights=True, max_fitting_steps=1)
+        # the initial parameters are arrays the caller keeps (handed over through the setters)
+        init_mu = fr.own("initial-means", B.copy(m.means))
+        init_w = fr.own("initial-weights", B.copy(m.weights))
+        init_v = fr.own("initial-variances", B.copy(m.variances))
+        m.means, m.weights, m.variances = init_mu, init_w, init_v
     else:
         ubm, P = make_gmm(B, C, D, "scalar", pre="u", simplex=True)
         fr.own_gmm("ubm", ubm)
